@@ -14,6 +14,19 @@ Done(FF_) == \A k \in Keys : FHasOp(FF_, k.l, k.a, k.b)
 NextKey == CHOOSE k \in Keys : ~FHasOp(F, k.l, k.a, k.b)
 ImgsFor(FF_, k) == TypedDiagrams(IF kind = "laws" THEN LIN ELSE IN_, IE, IA, TL, IEL, FType(FF_, k.a), FType(FF_, k.b))   \* candidate images
 FJson(FF_) == [obj |-> FF_.obj, ops |-> [i \in 1 .. Len(FF_.ops) |-> [l |-> FF_.ops[i].l, a |-> FF_.ops[i].a, b |-> FF_.ops[i].b, img |-> Pack(FF_.ops[i].img)]]]
+\* a lax presentation of the same image that carries a pending unification of its own: one boundary
+\* node is split in two and the halves are unified (its strictification is the image again)
+SplitLax(d) ==
+  IF d.t # <<>> THEN
+     LET v == d.t[1]  n == NN(d) IN
+     [PlainToLax(OH(d.w \o <<d.w[v + 1]>>, d.e, d.s, [d.t EXCEPT ![1] = n])) EXCEPT !.ql = <<v>>, !.qr = <<n>>]
+  ELSE IF d.s # <<>> THEN
+     LET v == d.s[1]  n == NN(d) IN
+     [PlainToLax(OH(d.w \o <<d.w[v + 1]>>, d.e, [d.s EXCEPT ![1] = n], d.t)) EXCEPT !.ql = <<n>>, !.qr = <<v>>]
+  ELSE PlainToLax(d)
+\* the table as seen by the lax functor trait: images given as lax diagrams with pending pairs
+FJsonLax(FF_) == [obj |-> FF_.obj, ops |-> [i \in 1 .. Len(FF_.ops) |-> [l |-> FF_.ops[i].l, a |-> FF_.ops[i].a, b |-> FF_.ops[i].b,
+                                                                      img |-> Pack(FF_.ops[i].img), limg |-> SplitLax(FF_.ops[i].img)]]]
 Em(flag, op, props, args) == IF flag \in Fam THEN EmitCase(op, props, args) ELSE TRUE
 \* lax versions of f: quotient-free, and with pending (label-consistent or not) unifications
 LaxOf(d) == PlainToLax(d)
@@ -29,6 +42,10 @@ Emits(FF_) ==
   /\ Em("dyn", "laxf.dyn_map_arrow", <<"C12">>, [F |-> FJson(FF_), f |-> LaxOf(f)])
   /\ Em("native", "laxf.try_define_map_arrow", <<"C13">>, [F |-> FJson(FF_), f |-> LaxOf(f)])
   /\ Em("native", "laxf.map_arrow_witness", <<"C13">>, [F |-> FJson(FF_), f |-> LaxOf(f)])
+  \* operation images that are lax diagrams with pending unifications of their own
+  /\ Em("split", "laxf.try_define_map_arrow", <<"C13">>, [F |-> FJsonLax(FF_), f |-> LaxOf(f)])
+  /\ Em("split", "laxf.map_arrow_witness", <<"C13">>, [F |-> FJsonLax(FF_), f |-> LaxOf(f)])
+  /\ Em("split", "laxf.dyn_map_arrow", <<"C12">>, [F |-> FJsonLax(FF_), f |-> LaxOf(f)])
   /\ \A lf \in (IF "refuse" \in Fam THEN Pending(f) ELSE {}) :
         /\ EmitCase("laxf.try_define_map_arrow", <<"C13">>, [F |-> FJson(FF_), f |-> lf])
         /\ EmitCase("laxf.map_arrow_witness", <<"C13">>, [F |-> FJson(FF_), f |-> lf])
@@ -52,6 +69,9 @@ DecompositionTheorem ==
     /\ LET r == Substitute(F, f) IN
        /\ WFPlain(r) /\ SrcType(r) = FType(F, SrcType(f)) /\ TgtType(r) = FType(F, TgtType(f))
        /\ Iso(SpiderDecomposition(F, f), r)
+\* the lax presentation with a split node means the same image
+SplitTheorem == stage = 5 /\ "split" \in Fam => \A i \in 1 .. Len(F.ops) :
+    LET l == SplitLax(F.ops[i].img) IN WFLax(l) /\ LaxConsistent(l) /\ Iso(Strictify(l), F.ops[i].img)
 FunctorialityTheorem ==
   stage = 5 /\ kind = "laws" =>
     /\ Iso(Substitute(F, TensorRef(f, g)), TensorRef(Substitute(F, f), Substitute(F, g)))
